@@ -36,8 +36,13 @@ CHECKS['C07'] = dict(
    text='discover_field_constraints of the real baseconstraints.py is executed symbolically on all paths against the strongest '
         'postcondition written from the property text (one clause per kind: exact extremes attained, null-count thresholds 0/1, '
         '1..20 categories, strongest sign class, no_duplicates iff >1 distinct non-real values, nothing for absent data); the '
-        'calculators enter through assumed contracts audited on real pandas frames by the bounded layer.',
-   note='Trusted: A-calc incl. calc_unique_values (sorted distinct non-null values), A-card, FP-REAL, pyvc encoding, z3/cvc5. '
+        'calculators enter through contracts on the abstract calculator interface (A-calc). For the pandas route nine of them (get_nrecords, '
+        'calc_tdda_type, calc_null_count, calc_non_null_count, calc_nunique, calc_min, calc_max, calc_min_length, calc_max_length) are themselves '
+        'proved on the real PandasConstraintCalculator against the same clauses, over a stub of the pandas objects (len, count, min, max, dropna, '
+        'str.len, nunique at their pandas meaning; results handed on as plain Python values); the others stay assumed and are audited on real '
+        'pandas frames and SQLite tables by the bounded layer.',
+   note='Trusted: A-calc (calc_unique_values: sorted distinct non-null values; calc_non_integer_values_count, calc_all_non_nulls_boolean, '
+        'calc_rex_constraint, find_rexes; all of it for the database route), A-pandas for the nine proved methods, A-card, FP-REAL, pyvc encoding, z3/cvc5. '
         'SQLite aggregates are audited under C08.',
    technique='contract-based deductive verification: strongest-postcondition proof by ast->z3 VC generation + bounded audit of assumed contracts',
    design_ref='DESIGN.md 5 C07')
